@@ -574,7 +574,11 @@ func propC16(r *Run) {
 			n = r.rng.rangeInt(900, 2200) // four-digit indices
 		}
 		k := r.rng.intn(len(c16Alphabets))
-		blk := seqio.NewOrigin(c16Gen(n, k, seed+t)).Buffer
+		var blk []byte
+		if recovered(func() { blk = seqio.NewOrigin(c16Gen(n, k, seed+t)).Buffer }) {
+			r.count("damaged/skipped-NewOrigin-panics")
+			continue
+		}
 		b, nn, label := c16Corrupt(r, blk, n)
 		if r.rng.intn(5) == 0 { // a second, independent corruption
 			var l2 string
